@@ -61,6 +61,28 @@ class HarnessError(Exception):
     pass
 
 
+class CaseTimeout(BaseException):
+    """raised by time_limit (BaseException so that 'except Exception' in the code under test cannot swallow it)"""
+
+
+import contextlib  # noqa: E402
+import signal  # noqa: E402
+
+
+@contextlib.contextmanager
+def time_limit(sec):
+    """watchdog for one call into the code under test (main thread of a worker process only)"""
+    def h(signum, frame):
+        raise CaseTimeout()
+    old = signal.signal(signal.SIGALRM, h)
+    signal.alarm(sec)
+    try:
+        yield
+    finally:
+        signal.alarm(0)
+        signal.signal(signal.SIGALRM, old)
+
+
 MAX_SAMPLES_PER_CLASS = 2
 MAX_SAMPLES = 14
 
@@ -232,8 +254,25 @@ def _worker(arg):
 # Hypothesis driver with bucketed collect-then-shrink
 # ---------------------------------------------------------------------
 
-SHRINK_CALL_BUDGET = {"quick": 600, "thorough": 3000}
+SHRINK_CALL_BUDGET = {"quick": 300, "thorough": 2000}
 MAX_BUCKET_ROUNDS = 6
+
+
+SLOW_CASE_S = 3.0
+SLOW_TOTAL_S = 45.0
+
+
+def _slow(st, t_case, budget, ctx):
+    """a case that ran into a watchdog (or is otherwise very slow) ends shrinking at once; when slow cases add up
+    the rest of this search is skipped (counted, reported in the evidence: inconclusive, never a violation)"""
+    dt = time.time() - t_case
+    if dt > SLOW_CASE_S:
+        st["after"] = budget + 1
+        st["slow"] = st.get("slow", 0.0) + dt
+        ctx.counters["slow-case(>3s)"] += 1
+        if st["slow"] > SLOW_TOTAL_S:
+            st["abort"] = True
+            ctx.counters["search-cut-short-by-slow-cases"] += 1
 
 
 def hyp_search(ctx, label, strategy, body, max_examples, shard=0, stateful_steps=None):
@@ -254,13 +293,17 @@ def hyp_search(ctx, label, strategy, body, max_examples, shard=0, stateful_steps
         st = {"bucket": None, "last": None, "after": 0}
 
         def run_one(case):
+            if st.get("abort"):
+                return
             if st["bucket"] is not None:
                 st["after"] += 1
                 if st["after"] > budget:
                     return
+            t_case = time.time()
             try:
                 body(case)
             except Violation as v:
+                _slow(st, t_case, budget, ctx)
                 if v.bucket in ctx.known_buckets:
                     ctx.known_hits[v.bucket] += 1
                     return
@@ -273,6 +316,7 @@ def hyp_search(ctx, label, strategy, body, max_examples, shard=0, stateful_steps
                     return
                 st["last"] = v
                 raise
+            _slow(st, t_case, budget, ctx)
 
         test = given(strategy)(run_one)
         test = settings(
